@@ -28,6 +28,7 @@ func runC20(r *Report) {
 	c20PathCmp(r)
 	c20FilesIndex(r)
 	c20FilesImmutable(r, "R1")
+	c20Exhaustive(r)
 	c20R2(r)
 	c20R3(r)
 	c20R4(r)
@@ -1302,5 +1303,98 @@ func c20FilesImmutable(r *Report, rule string) {
 	}
 	if n == 0 {
 		r.Ok(rule, "Torrent.Files/immutable-after-publication", token.NoPos, "no store into the file table and no in-place reordering of it outside MetadataComplete")
+	}
+}
+
+// ---------- searches of the file table are exhaustive ----------
+
+// c20Exhaustive: the file list of a torrent is in no particular order of paths (files of one directory need not be
+// adjacent). A loop over Torrent.Files in a front-end may stop early only because it found what it was looking for: every
+// edge that leaves the loop from its body is taken under a positive match (Path.Equal, Path.Within or a string equality
+// that holds). An exit under "we are past the directory" assumes an order the table does not have, and makes files that
+// ReadDirAll lists impossible to look up.
+func c20Exhaustive(r *Report) {
+	p := r.P
+	filesF := p.Field("tor", "Torrent", "Files")
+	if filesF == nil {
+		return
+	}
+	n := 0
+	for _, f := range p.SrcFuncs() {
+		if pk := relPkg(f); pk != "http" && pk != "fuse" {
+			continue
+		}
+		for _, l := range naturalLoops(f) {
+			// does the loop range over the file table?
+			over := false
+			for b := range l.Blocks {
+				for _, in := range b.Instrs {
+					var base, idx ssa.Value
+					switch x := in.(type) {
+					case *ssa.IndexAddr:
+						base, idx = x.X, x.Index
+					case *ssa.Index:
+						base, idx = x.X, x.Index
+					default:
+						continue
+					}
+					if fv, _ := loadedField(base); fv != filesF {
+						continue
+					}
+					if bo, ok := stripIntConv(idx).(*ssa.BinOp); ok && bo.Op == token.ADD {
+						if ph, okp := bo.X.(*ssa.Phi); okp && ph.Comment == "rangeindex" && ph.Block() == l.Head {
+							over = true
+						}
+					}
+				}
+			}
+			if !over {
+				continue
+			}
+			for b := range l.Blocks {
+				if b == l.Head {
+					continue
+				}
+				for _, s := range b.Succs {
+					if l.Blocks[s] {
+						continue
+					}
+					n++
+					r.Fn(f)
+					positive := false
+					for _, g := range guardsOnEdge(b, s) {
+						if g.If == nil || !l.Blocks[g.If.Block()] {
+							continue
+						}
+						g = g.norm()
+						if !g.Pol {
+							if bo, ok := g.Cond.(*ssa.BinOp); ok && bo.Op == token.NEQ && isStringKind(bo.X.Type()) {
+								positive = true // !(a != b)
+							}
+							continue
+						}
+						switch x := g.Cond.(type) {
+						case *ssa.Call:
+							if cal := x.Call.StaticCallee(); cal != nil && relPkg(cal) == "path" && (cal.Name() == "Equal" || cal.Name() == "Within") {
+								positive = true
+							}
+						case *ssa.BinOp:
+							if x.Op == token.EQL && isStringKind(x.X.Type()) {
+								positive = true
+							}
+						}
+					}
+					pos := token.NoPos
+					if len(b.Instrs) > 0 {
+						pos = b.Instrs[len(b.Instrs)-1].Pos()
+					}
+					r.Check(positive, "R1", fmt.Sprintf("%s/Files-loop-exit-needs-a-match", fname(f)), pos, "the loop over the file table is left early only under a positive match",
+						"a loop over Torrent.Files in "+fname(f)+" is left from its body on an edge that no positive match (Equal, Within, name equality) controls: stopping because the entries are past a directory assumes the files of a directory are adjacent in the table, which nothing guarantees — with an interleaved file list a file that the listing shows cannot be looked up")
+				}
+			}
+		}
+	}
+	if n == 0 {
+		r.Info("R1", "Files-loops/no-early-exit", token.NoPos, "no loop over the file table in the front-ends has an early exit")
 	}
 }
